@@ -138,7 +138,7 @@ def parse(out):
 
 
 def run_harnesses(dst, names, jobs=8, timeout=1500, extra=()):
-    cmd = ['cargo', 'kani', '--output-format', 'terse', '-j', str(jobs)]
+    cmd = ['cargo', 'kani', '--output-format', 'terse', '-j', str(jobs), '-Z', 'stubbing']     # stubbing: modular harnesses replace proved callees by their contracts
     for n in names:
         cmd += ['--harness', n]
     cmd += list(extra)
